@@ -114,6 +114,12 @@ func (r *Recorder) on(ev *nutsdb.VerifEvent) *nutsdb.VerifFault {
 			if p > len(ev.Data) {
 				p = len(ev.Data)
 			}
+			// A failed write must leave the record incomplete on disk: if the omitted
+			// suffix is all zero bytes the preallocated (zero-filled) segment already
+			// holds it and the "failed" write is physically complete.
+			for p > 0 && allZero(ev.Data[p:]) {
+				p--
+			}
 			if ev.Kind == "write" && p > 0 {
 				r.Evs = append(r.Evs, Ev{Kind: "write", Path: rel, Off: ev.Off, Size: int64(p), Data: append([]byte(nil), ev.Data[:p]...)})
 			}
@@ -372,4 +378,13 @@ func tornPoints(e Ev) []int {
 	}
 	sort.Ints(out)
 	return out
+}
+
+func allZero(b []byte) bool {
+	for _, x := range b {
+		if x != 0 {
+			return false
+		}
+	}
+	return true
 }
